@@ -44,7 +44,7 @@ def main():
             vl = os.path.join(d, "verify.log")
             v = None
             if os.path.exists(vl):
-                for l in open(vl):
+                for l in open(vl, errors="replace"):
                     m = re.match(r"(C\d+) (m\d+): tests\[(.*?)\] demo_with_mutant_exit=(\d+) demo_clean_exit=(\d+)", l)
                     if m:
                         v = {"tests_with_mutant": m.group(3), "demo_exit_with_mutant": int(m.group(4)), "demo_exit_on_clean_tree": int(m.group(5))}
